@@ -18,6 +18,7 @@ macro_rules! notify_harness {
             #[kani::stub(crate::store_impl::StoreImpl::do_reduce, crate::verif_kani::g_glue::sum_reduce)]
             #[kani::stub(crate::store_impl::StoreImpl::do_effect, crate::verif_kani::g_glue::sum_effect)]
             #[kani::stub(crossbeam::hooks::block, n_block)]
+            #[kani::stub(crossbeam::hooks::yield_point, crate::verif_kani::rt::default_yield)]
             $(#[$m])*
             fn $name() $body
         }
@@ -116,7 +117,7 @@ fn n_block(kind: u8, obj: usize) {
 
 fn n_setup(cap: usize, init: St) -> Arc<Store> {
     g_reset();
-    crossbeam::hooks::set_native(None, Some(n_block));
+    crossbeam::hooks::set_native(Some(rt::default_yield), Some(n_block));
     unsafe {
         SEQ = [[ITEM0; 4]; 2];
         SEQ_N = [0; 2];
@@ -270,12 +271,13 @@ fn unsub_yield(kind: u8, obj: usize) {
     }
 }
 pub fn unsub_yield_pub(kind: u8, obj: usize) {
-    unsub_yield(kind, obj)
+    unsub_yield(kind, obj);
+    rt::on_join(kind, obj);
 }
 
 fn s_unsub(kind: u8, obj: usize, occ: u8) {
     let store = n_setup(4, kani::any());
-    crossbeam::hooks::set_native(Some(unsub_yield), Some(n_block));
+    crossbeam::hooks::set_native(Some(unsub_yield_pub), Some(n_block));
     let a: Arc<dyn Subscriber<St, Act> + Send + Sync> = Arc::new(ScriptSubscriber { idx: 0 });
     let b: Arc<dyn Subscriber<St, Act> + Send + Sync> = Arc::new(ScriptSubscriber { idx: 1 });
     let ha = store.add_subscriber(a);
